@@ -168,18 +168,23 @@ func H_C16_template() {
 	// identifier token and not in a gap (comment)
 	want := ""
 	replaced := false
+	beyond := false // an unprotected placeholder with a number above the argument count ($11, $111)
 	for i := 0; i < len(tpl); i++ {
-		if i+1 < len(tpl) && tpl[i] == '$' && tpl[i+1] == '1' && !(i+2 < len(tpl) && tpl[i+2] >= '0' && tpl[i+2] <= '9') {
+		if i+1 < len(tpl) && tpl[i] == '$' && tpl[i+1] == '1' {
+			multi := i+2 < len(tpl) && tpl[i+2] >= '0' && tpl[i+2] <= '9'
 			inTok, protected := false, false
 			for k := range class {
 				if start[k] <= i && i < end[k] {
 					inTok = true
-					if class[k] == verif.TokString || (class[k] == verif.TokIdent && tpl[start[k]] == '`') {
+					if class[k] == verif.TokString || class[k] == verif.TokComment || (class[k] == verif.TokIdent && tpl[start[k]] == '`') {
 						protected = true
 					}
 				}
 			}
-			if inTok && !protected {
+			if inTok && !protected && multi {
+				beyond = true
+			}
+			if inTok && !protected && !multi {
 				want += "'Z'"
 				replaced = true
 				i++
@@ -200,11 +205,15 @@ func H_C16_template() {
 			class_ = "/hash-comment"
 		case t[i] == '-' && i+1 < len(t) && t[i+1] == '-' && class_ == "":
 			class_ = "/dash-dash"
+		case t[i] == '/' && i+1 < len(t) && t[i+1] == '/' && class_ == "":
+			class_ = "/slash-slash"
 		case t[i] == '\\' && class_ == "":
 			class_ = "/backslash-escape"
 		}
 	}
-	if replaced {
+	if beyond {
+		verif.Assert(err != nil, "placeholder-beyond-arguments-is-error"+class_)
+	} else if replaced {
 		verif.Assert(err == nil && out == want, "placeholders-outside-literals-only"+class_)
 	} else {
 		verif.Assert(err != nil || out == tpl, "literal-placeholders-left-alone"+class_)
